@@ -302,7 +302,7 @@ func randCuts(r *rand.Rand, n int) []int {
 	k := r.Intn(5)
 	pos := 0
 	for i := 0; i < k && pos < n; i++ {
-		pos += r.Intn(n-pos+1)
+		pos += r.Intn(n - pos + 1)
 		cuts = append(cuts, pos)
 	}
 	return cuts
